@@ -351,6 +351,8 @@ static void h_std(const char *cmd, const char *fmt, ...)
 
 /* ------------------------------------------- error function and callbacks */
 
+static int h_errtag;		/* set by the second error function: its entries are tagged ALT_ */
+
 static void h_errfunc(cfg_t *cfg, const char *fmt, va_list ap)
 {
 	const char *p;
@@ -358,13 +360,21 @@ static void h_errfunc(cfg_t *cfg, const char *fmt, va_list ap)
 	(void)ap;		/* the arguments are deliberately not formatted */
 	h_buf_sep(&h_diags);
 	h_buf_hexpath(&h_diags, cfg->filename);
-	h_buf_printf(&h_diags, ",%d,", cfg->line);
+	h_buf_printf(&h_diags, ",%d,%s", cfg->line, h_errtag ? "ALT_" : "");
 	for (p = fmt; p && *p; p++) {
 		int ok = (*p >= 'A' && *p <= 'Z') || (*p >= 'a' && *p <= 'z') || (*p >= '0' && *p <= '9') || *p == '%';
 		char c = ok ? *p : '_';
 
 		h_buf_add(&h_diags, &c, 1);
 	}
+}
+
+/* a second error function (command `errfunc C 1`): same log, entries tagged */
+static void h_errfunc_alt(cfg_t *cfg, const char *fmt, va_list ap)
+{
+	h_errtag = 1;
+	h_errfunc(cfg, fmt, ap);
+	h_errtag = 0;
 }
 
 /* start a callback log entry `<tag><K>:NAME` */
@@ -1096,6 +1106,17 @@ static void h_c_parse_fpfail(const char *cmd, cfg_t *cfg)
 	h_std(cmd, "rc=%d", rc);
 }
 
+/* errfunc C K: cfg_set_error_function(cfg, K ? the tagging function : the normal one) */
+static void h_c_errfunc(const char *cmd, cfg_t *cfg)
+{
+	long k = h_long(2);
+
+	if (h_bad)
+		return;
+	H_LIB(cfg_set_error_function(cfg, k ? h_errfunc_alt : h_errfunc));
+	h_std(cmd, "rc=ok");
+}
+
 /* searchpath parse_buf parse_file parse_fp */
 static void h_c_parse(const char *cmd, cfg_t *cfg)
 {
@@ -1642,7 +1663,7 @@ static const struct h_cmd {
 	{ "failat", h_c_ambient, 0, 2, 2 },
 	{ "init", h_c_init, 0, 4, 4 }, { "poison", h_c_poison, 0, 2, 2 }, { "free", h_c_free, 1, 2, 2 },
 	{ "searchpath", h_c_parse, 1, 3, 3 }, { "parse_buf", h_c_parse, 1, 3, 3 },
-	{ "parse_file", h_c_parse, 1, 3, 3 }, { "parse_fp", h_c_parse, 1, 3, 3 }, { "parse_fpfail", h_c_parse_fpfail, 1, 3, 3 }, { "lex", h_c_lex, 0, 2, 2 },
+	{ "parse_file", h_c_parse, 1, 3, 3 }, { "parse_fp", h_c_parse, 1, 3, 3 }, { "parse_fpfail", h_c_parse_fpfail, 1, 3, 3 }, { "errfunc", h_c_errfunc, 1, 3, 3 }, { "lex", h_c_lex, 0, 2, 2 },
 	{ "dump", h_c_dump, 1, 2, 2 }, { "getopt", h_c_get, 1, 3, 3 }, { "getsec", h_c_get, 1, 3, 3 },
 	{ "size", h_c_get, 1, 3, 3 }, { "title", h_c_get, 1, 3, 3 },
 	{ "setint", h_c_set, 1, 5, 5 }, { "setfloat", h_c_set, 1, 5, 5 }, { "setbool", h_c_set, 1, 5, 5 },
